@@ -154,23 +154,43 @@ func verifSameNameLocations(id string) {
 //verif:harness id=C05 tier=quick,thorough witness=end bounds="same name, different location: a required path-item parameter id (integer) in query / header / cookie and an operation parameter id in query / header / cookie (required or not); each absent, 5, or x; through ValidateRequest: the request passes iff every parameter in effect is present when required and well-formed when present"
 func verifH_C05_same_name_locations() { verifSameNameLocations("C05") }
 
-//verif:harness id=C05 tier=quick,thorough witness=end,accepted,rejected bounds="enum on typed parameters: integer parameter (format absent / int32 / int64) with enum [1, 2, 3] as a JSON document gives it (float64), or boolean parameter with enum [true], in query / path / header; text = one symbolic decimal digit, or true / false: ValidateParameter accepts exactly the texts that denote a member of the enum"
+//verif:harness id=C05 tier=quick,thorough witness=end,accepted,rejected bounds="enum on typed parameters: integer parameter (format absent / int32 / int64) with enum [1, 2, 3] as a JSON document gives it (float64), or boolean parameter with enum [true], or an array of integers (each format) / numbers with enum [[1,2],[3]], in query / path / header; text = one symbolic decimal digit, or true / false: ValidateParameter accepts exactly the texts that denote a member of the enum"
 func verifH_C05_typed_enum() {
 	in := []string{"query", "path", "header"}[verifChoose("in", 3)]
 	var schema *openapi3.Schema
 	var text string
 	want := false
-	if verifChoose("type", 2) == 0 {
+	switch ty := verifChoose("type", 4); {
+	case ty >= 2:
+		// an enum whose members are arrays (of integers with each format, or of numbers): the decoded items are int64 / int32 / float64
+		items := &openapi3.Schema{Type: &openapi3.Types{"integer"}, Format: []string{"", "int32", "int64"}[verifChoose("format", 3)]}
+		if ty == 3 {
+			items = &openapi3.Schema{Type: &openapi3.Types{"number"}}
+		}
+		schema = &openapi3.Schema{Type: &openapi3.Types{"array"}, Items: &openapi3.SchemaRef{Value: items}, Enum: []any{[]any{1.0, 2.0}, []any{3.0}}}
+		d := verifNondetByteIn("d", "0123456789")
+		if verifChoose("two", 2) == 1 {
+			text = "1," + string([]byte{d})
+			want = d == '2'
+		} else {
+			text = string([]byte{d})
+			want = d == '3'
+		}
+	case ty == 0:
 		schema = &openapi3.Schema{Type: &openapi3.Types{"integer"}, Format: []string{"", "int32", "int64"}[verifChoose("format", 3)], Enum: []any{1.0, 2.0, 3.0}}
 		d := verifNondetByteIn("d", "0123456789")
 		text = string([]byte{d})
 		want = d >= '1' && d <= '3'
-	} else {
+	default:
 		schema = &openapi3.Schema{Type: &openapi3.Types{"boolean"}, Enum: []any{true}}
 		text = []string{"true", "false"}[verifChoose("bool", 2)]
 		want = text == "true"
 	}
 	param := &openapi3.Parameter{Name: "P", In: in, Required: true, Schema: &openapi3.SchemaRef{Value: schema}}
+	if schema.Type.Is("array") && in == "query" {
+		f := false
+		param.Explode = &f // items separated by commas in every location
+	}
 	input := &RequestValidationInput{Request: &http.Request{Header: http.Header{}, URL: &url.URL{}}, QueryParams: url.Values{}, PathParams: map[string]string{}, Options: &Options{}}
 	switch in {
 	case "query":
